@@ -114,6 +114,12 @@ fn base_tokens() -> BoxedStrategy<Vec<String>> {
         2 => (vergen::tokens(4), arbitrary_text(), any::<u16>()).prop_map(|(mut v, t, s)| { let k = idx(s, v.len() + 1); v.insert(k, t); v }),
         2 => (vergen::tokens(4), long_digits(), any::<u16>()).prop_map(|(mut v, t, s)| { let k = idx(s, v.len() + 1); v.insert(k, t); v }),
         1 => arbitrary_text().prop_map(|t| vec![t]),
+        // a version of a chosen, possibly very large, number of components
+        1 => (crate::engine::gen::interesting_len(1300), prop::sample::select(vec!["1.", "0.", ".0", "0", "a"]), vergen::tokens(3)).prop_map(|(n, unit, mut tail)| {
+            let mut v = vec![unit.repeat(n)];
+            v.append(&mut tail);
+            v
+        }),
     ]
     .boxed()
 }
